@@ -255,6 +255,7 @@ def run(ctx):
     _run_rules(ctx)
     from .. import boundaries
     boundaries.check(ctx, 'C16.RB', 'C16')
+    boundaries.check_layering(ctx, 'C16.RL')
     boundaries.check_inits(ctx, 'C16.RI', 'C16')
     boundaries.check_writes(ctx, 'C16.RW', 'C16')
     boundaries.check_guards(ctx, 'C16.RG', 'C16')
